@@ -22,7 +22,7 @@ import itertools
 import numpy as np
 
 from mc import alphabet as A, refmodel as R
-from mc.core import Out, inner
+from mc.core import Out, inner, HarnessError
 
 ID = "C06"
 RULE = ("programs = time-ordered chains [State]? (Gate|MProcess)* [Povm]? of the stated lengths x every assignment of "
@@ -654,11 +654,85 @@ def families(tier, seed):
             genmp.append({"sys": tag, "povm": nm})
         topovm.append({"sys": tag})
     rare = [{"sys": tag, "exp": e} for tag in ("Q1", "Q3", "Q2") for e in RARE_EXPONENTS]
-    return [("pairs", pairs), ("to_povm", topovm), ("genmp", genmp), ("rare", rare), ("chains", chains)]
+    spectral = [{"sys": tag, "povm": nm} for tag in ("Q1", "Q3", "Q2") for nm in sorted(spectral_povms({"Q1": 2, "Q3": 3, "Q2": 4}[tag]))]
+    return [("pairs", pairs), ("to_povm", topovm), ("genmp", genmp), ("genmp_spectral", spectral), ("rare", rare), ("chains", chains)]
 
 
 def execute(family, params, seed):
-    return {"chains": ex_chains, "pairs": ex_pairs, "genmp": ex_genmp, "to_povm": ex_to_povm, "rare": ex_rare}[family](params, seed)
+    return {"chains": ex_chains, "pairs": ex_pairs, "genmp": ex_genmp, "to_povm": ex_to_povm, "rare": ex_rare,
+            "genmp_spectral": ex_genmp_spectral}[family](params, seed)
+
+
+def spectral_povms(d):
+    """POVMs whose elements are DIAGONAL in the computational basis with exactly representable, partly degenerate
+    eigenvalues: the spectral decomposition (documented back-action of modes 0 and 1) is unambiguous for them."""
+    out = {}
+    half = [0.5] * d
+    e = lambda k: [1.0 if i == k else 0.0 for i in range(d)]
+    out["halfI+halfprojectors"] = [half] + [[0.5 * v for v in e(k)] for k in range(d)]
+    if d >= 3:
+        out["block-projectors"] = [[1.0] * (d - 1) + [0.0], e(d - 1)]
+        out["weighted-blocks"] = [[0.25] * (d - 1) + [0.5], [0.75] * (d - 1) + [0.5]]
+    if d == 4:
+        out["parity"] = [[1.0, 0.0, 0.0, 1.0], [0.0, 1.0, 1.0, 0.0]]
+    if d == 2:
+        out["unsharp+identity-part"] = [[0.5, 0.5], [0.25, 0.5], [0.25, 0.0]]
+    return out
+
+
+def ex_genmp_spectral(p, seed):
+    """Povm.generate_mprocess modes 0 and 1 against their documented back-action (sqrt(Pi) rho sqrt(Pi); sum_i p_i P_i rho P_i
+    with the spectral projectors P_i) on states with coherence inside the degenerate eigenspaces."""
+    from quara.objects.operators import compose_qoperations
+    out = Out()
+    tag = p["sys"]
+    c = A.make_system(tag)
+    d = c.dim
+    diags = spectral_povms(d)[p["povm"]]
+    Ms = [np.diag(np.array(v, dtype=np.complex128)) for v in diags]
+    ok, povm = A.call(A.q_povm, c, Ms)
+    if not ok:
+        raise HarnessError("spectral POVM rejected: %s" % A.fmt_exc(povm))
+    states = A.states_ref(d, seed)
+    for mode in (0, 1):
+        okm, mp = A.call(povm.generate_mprocess, mode)
+        out.ops += 1
+        if not okm:
+            out.fail("generate_mprocess:mode%d:raises:%s:degenerate-diagonal" % (mode, type(mp).__name__), "%s %s: %s" % (tag, p["povm"], A.fmt_exc(mp)))
+            continue
+        for sn in ("pure_generic", "pure_fourier", "mixed_generic"):
+            rho = states[sn]
+            oke, ens = A.call(compose_qoperations, mp, A.q_state(c, rho))
+            out.ops += 1
+            if not oke:
+                out.fail("compose:MProcess_State:raises:%s:generated-mode%d:degenerate-diagonal" % (type(ens).__name__, mode), "%s %s on %s: %s" % (tag, p["povm"], sn, A.fmt_exc(ens)))
+                continue
+            for x, dv in enumerate(diags):
+                px = float(np.real(sum(dv[k] * rho[k, k] for k in range(d))))
+                if px < 1e-6:
+                    continue
+                if mode == 0:
+                    sq = np.diag(np.sqrt(np.array(dv)))
+                    post = sq @ rho @ sq / px
+                else:
+                    post = np.zeros((d, d), dtype=np.complex128)
+                    for lam in sorted(set(dv)):
+                        if lam == 0.0:
+                            continue
+                        P = np.diag([1.0 if v == lam else 0.0 for v in dv]).astype(np.complex128)
+                        post = post + lam * (P @ rho @ P)
+                    post = post / px
+                got = A.rho_of(ens.states[x])
+                out.traces += 1
+                out.count("spectral_post_states_checked")
+                if len(set(v for v in dv if v != 0.0)) < sum(1 for v in dv if v != 0.0):
+                    out.count("spectral_degenerate_elements")
+                if abs(ens.prob_dist.ps[x] - px) > 1e-9 or np.abs(got - post).max() > 1e-9:
+                    out.fail("generate_mprocess:mode%d:documented-back-action:%s" % (mode, "degenerate-spectrum" if mode == 1 else "sqrt"),
+                             "%s POVM %s outcome %d on state %s: post-measurement state differs from the documented back-action by %.3g (p %.6g vs %.6g)" % (
+                                 tag, p["povm"], x, sn, np.abs(got - post).max(), ens.prob_dist.ps[x], px))
+    out.outcome = "ok" if not out.fails else "fail"
+    return out
 
 
 def _finish(out, digest_parts):
@@ -895,6 +969,8 @@ def guards(summary):
     for s in SITES:
         if info.get("site:" + s, 0) < 1:
             g.append("call site never exercised: %s" % s)
+    if info.get("spectral_degenerate_elements", 0) < 1:
+        g.append("no degenerate POVM element reached the documented-back-action comparison")
     for k in ("result:state", "result:ens", "result:gate", "result:mproc", "result:povm", "result:dist",
               "mm_unequal_counts", "noncommuting_neighbours", "zero_prob_outcomes", "trees_n4", "nary_ok",
               "physical_results", "to_povm_ok", "induced_povm_consistent",
